@@ -207,6 +207,10 @@ static std::string leak_site(const std::string &rep)
 
 static void lsan_monitor(const Plan &plan, Ctx &ctx)
 {
+	// C06, C07 and C16 speak of leaks over inputs and operation sequences, not over failing allocations: a run of the
+	// world with injected allocation failures is judged for everything but leaks
+	if (plan.C("allocfaults"))
+		return;
 	if (!leak_property(plan.property))
 		return;
 	std::string rep = lsan_check();
@@ -306,6 +310,19 @@ static std::string read_file(const std::string &p, size_t cap = 1 << 20)
 }
 
 // Turn a sanitizer report into a stable class: kind + first libjwt frame.
+// Every run has a wall-clock limit (C06/C07: the calls return). The handler names the place and ends the process; the
+// master (or the parent of a gate child) then sees a dead process in the middle of a run, as for any crash.
+extern "C" void __sanitizer_print_stack_trace(void);
+static const unsigned RUN_WALL_LIMIT_S = 45;
+static void on_run_alarm(int)
+{
+	static const char m[] = "jwtsim: HANG the run exceeded its wall-clock limit; stack of the thread that took the signal:\n";
+	ssize_t w = write(2, m, sizeof m - 1);
+	(void)w;
+	__sanitizer_print_stack_trace();
+	_exit(79);
+}
+
 static std::string classify_crash(const std::string &err, int status)
 {
 	std::string kind = "abort";
@@ -336,7 +353,9 @@ static std::string classify_crash(const std::string &err, int status)
 		}
 		return "tsan-" + k + "@" + fn;
 	}
-	if ((p = err.find("ERROR: AddressSanitizer: ")) != std::string::npos) {
+	if (err.find("jwtsim: HANG") != std::string::npos) {
+		kind = "hang";
+	} else if ((p = err.find("ERROR: AddressSanitizer: ")) != std::string::npos) {
 		size_t s = p + strlen("ERROR: AddressSanitizer: ");
 		size_t e = err.find_first_of(" \n", s);
 		kind = "asan-" + err.substr(s, e - s);
@@ -359,7 +378,7 @@ static std::string classify_crash(const std::string &err, int status)
 		kind = strf("exit-%d", WEXITSTATUS(status));
 	// a report whose innermost frame is harness code is a harness bug, never a finding
 	size_t f0 = err.find("#0 ");
-	if (f0 != std::string::npos) {
+	if (f0 != std::string::npos && kind != "hang") {
 		size_t eol = err.find('\n', f0);
 		if (err.substr(f0, eol - f0).find("/verif/sim/") != std::string::npos)
 			return "harness-bug:" + kind;
@@ -374,10 +393,15 @@ static std::string classify_crash(const std::string &err, int status)
 		std::string line = err.substr(s, eol - s);
 		if (line.find("/libjwt/") != std::string::npos) {
 			where = err.substr(s, e - s);
-			break;
+			// a hang is named after the outermost frame of the library (the call that does not return): the innermost
+			// one depends on the instant the watchdog fired
+			if (kind != "hang")
+				break;
 		}
 		pos = s;
 	}
+	if (kind == "hang" && where == "?")
+		return "harness-bug:hang"; // no frame of the library on the stack: the simulator itself is stuck
 	return kind + "@" + where;
 }
 
@@ -435,6 +459,7 @@ static ChildResult run_in_child(const Plan &plan, double timeout_s = 120, const 
 			dup2(efd, 2);
 			close(efd);
 		}
+		signal(SIGALRM, on_run_alarm);
 		alarm((unsigned)timeout_s);
 		FILE *out = fdopen(pfd[1], "w");
 		if (prefix)
@@ -781,6 +806,7 @@ struct WorkerCfg {
 
 static void worker_main(const WorkerCfg &wc)
 {
+	signal(SIGALRM, on_run_alarm);
 	FILE *out = fdopen(wc.out_fd, "w");
 	Stats st;
 	uint64_t nsamples = 0;
@@ -797,7 +823,9 @@ static void worker_main(const WorkerCfg &wc)
 		make_plan(*wc.cd, wc.verif_seed, i, wc.tier, plan);
 		Ctx ctx;
 		ctx.stats = &st;
+		alarm(RUN_WALL_LIMIT_S);
 		uint64_t h = exec_plan(plan, ctx);
+		alarm(0);
 		// determinism sample: the same plan again in the same (now dirtier) process
 		if (mix64(i, 77) % 40 == 0 && ctx.viol.empty()) {
 			Ctx c2;
@@ -817,7 +845,8 @@ static void worker_main(const WorkerCfg &wc)
 		fprintf(out, "E %llu %llu %d %zu\n", (unsigned long long)i, (unsigned long long)h, ctx.nontrivial ? 1 : 0,
 			plan.total_steps());
 		if (leak_property(wc.cd->property)) {
-			lsan_batch.push_back(i);
+			if (!plan.C("allocfaults"))
+				lsan_batch.push_back(i);
 			if (lsan_batch.size() >= 16 || i + wc.stride >= wc.limit) {
 				st.inc("lsan_batch_checks");
 				if (!lsan_check().empty()) {
@@ -893,6 +922,7 @@ static int cmd_check(const std::string &property, Tier tier, uint64_t verif_seed
 	std::vector<std::string> samples;
 	bool nondeterminism = false;
 	bool timed_out = false;
+	bool stopping = false;
 	std::vector<uint64_t> leak_candidates;
 
 	auto spawn = [&](size_t w, uint64_t first) {
@@ -1056,6 +1086,8 @@ static int cmd_check(const std::string &property, Tier tier, uint64_t verif_seed
 					spawn(idx[k], s.next_first);
 				continue;
 			}
+			if (stopping)
+				continue; // killed by the master after the early stop
 			// died in the middle of a run
 			uint64_t dead_run = s.cur;
 			std::string err = read_file(s.errpath);
@@ -1081,6 +1113,18 @@ static int cmd_check(const std::string &property, Tier tier, uint64_t verif_seed
 			total.inc("worker_restarts");
 			completed++;
 			uint64_t nf = dead_run + (uint64_t)nworkers;
+			// a tree on which runs keep dying (or hanging until the watchdog fires) has been shown to be broken: the
+			// findings collected so far go through the gate, the rest of the exploration is dropped
+			if (total.counters["worker_restarts"] >= 32 && !found.empty()) {
+				if (!timed_out)
+					fprintf(stderr, "jwtsim: %llu runs died; exploration stopped early, reporting what was found\n", (unsigned long long)total.counters["worker_restarts"]);
+				timed_out = true;
+				stopping = true;
+				deadline = 0;
+				for (auto &o : slots)
+					if (o.pid > 0 && o.fd >= 0 && &o != &s)
+						kill(o.pid, SIGKILL);
+			}
 			if (nf < runs && wall_now() < deadline)
 				spawn(idx[k], nf);
 		}
